@@ -49,7 +49,12 @@ WC_SPECS = {
     '!ns:urn:o': ('notNamespace="urn:o ##local"', True),
     '!q:a': ('namespace="##any" notQName="t:a"', True),
     '!q:a,s': ('namespace="##targetNamespace" notQName="t:a t:s"', True),
+    # XSD 1.1 tokens: every global element name / every name an element particle of the same model matches
+    '!q:##defined': ('namespace="##any" notQName="##defined"', True),
+    '!q:##definedSibling': ('namespace="##targetNamespace" notQName="##definedSibling"', True),
+    '!q:##defined,sib': ('namespace="##any" notQName="##defined ##definedSibling t:zz"', True),
 }
+TOKEN_SPECS = ['!q:##defined', '!q:##definedSibling', '!q:##defined,sib']
 
 # the symbol universe of the reference: (namespace, local); one representative per region
 FRESH = [(TNS, 'zz'), (ONS, 'z'), (PNS, 'z'), ('', 'z')]
@@ -57,8 +62,34 @@ ELEM_NAMES = ['a', 'b', 'c', 'h', 's', 's2', 'd', 'q']
 UNIVERSE = [(TNS, n) for n in ELEM_NAMES] + FRESH
 
 
+# names matched by the element particles of the model under consideration (for ##definedSibling); set by
+# the functions that take a whole model (`set_sibs`)
+_SIBS: set = set()
+
+
+def sib_names(ast: tuple) -> set:
+    out = set()
+    for l in leaves(ast):
+        if l[0] == 'l':
+            out.add(l[1])
+        elif l[0] == 'e':
+            out.update(SUBST.get(l[1], [l[1]]))
+    return out
+
+
+def set_sibs(ast: tuple) -> None:
+    global _SIBS
+    _SIBS = sib_names(ast)
+
+
 def wc_matches(spec: str, sym: tuple[str, str]) -> bool:
     ns, loc = sym
+    if spec == '!q:##defined':
+        return not (ns == TNS and loc in ELEM_NAMES)
+    if spec == '!q:##definedSibling':
+        return ns == TNS and loc not in _SIBS
+    if spec == '!q:##defined,sib':
+        return not (ns == TNS and loc in ELEM_NAMES) and not (ns == TNS and loc in _SIBS) and sym != (TNS, 'zz')
     if spec == '##any':
         return True
     if spec == '##other':
@@ -145,7 +176,12 @@ def build_schema(models: list[tuple], v11: bool, validation: str = 'lax'):
     groups: list[str] = []
     for k, m in enumerate(models):
         defs: dict[str, str] = {}
-        xsd = to_xsd(m, defs)
+        oc = ''
+        if m[0] == 'oc':        # ('oc', mode, wildcard spec, model): XSD 1.1 open content around the model
+            oc = (f'<xs:openContent mode="{m[1]}"><xs:any {WC_SPECS[m[2]][0]} processContents="lax"/>'
+                  '</xs:openContent>')
+            m = m[3]
+        xsd = oc + to_xsd(m, defs)
         for inner, name in defs.items():     # named groups are per model: G0_k, G1_k, …
             xsd = xsd.replace(f'ref="t:{name}"', f'ref="t:{name}_{k}"')
         for inner, name in defs.items():
@@ -234,6 +270,46 @@ def flat_choices() -> list[tuple]:
             for lo, hi in ([(1, 1)] if k == 3 else [o for o in cm.OCC_SMALL if o != (0, 0)]):
                 out.append(('g', 'choice', lo, hi, list(items)))
     return out
+
+
+def flat_seqs() -> list[tuple]:
+    """the fragment of theorem checkModel_refines_flat_seq_partial: a sequence {1,1} or {0,1} of 1..3 references to
+    plain global elements (a, b, c for ≤ 2 members; a, b for 3 members) with every occurrence range of
+    lib_cm.OCC_SMALL"""
+    out = []
+    for k in (1, 2, 3):
+        names = ('a', 'b', 'c') if k < 3 else ('a', 'b')
+        opts = [('e', n, lo, hi) for n in names for lo, hi in cm.OCC_SMALL]
+        for items in itertools.product(opts, repeat=k):
+            for lo, hi in ((1, 1), (0, 1)):
+                out.append(('g', 'sequence', lo, hi, list(items)))
+    return out
+
+
+def token_model(rng) -> tuple:
+    """XSD 1.1: a small model with at least one wildcard whose notQName has ##defined / ##definedSibling"""
+    while True:
+        m = small_random(rng, rng.choice([2, 3, 3]), ['a', 'b', 'h'], [(1, 1), (0, 1), (0, None), (1, 2)], any_p=0.5)
+
+        def rewrite(a: tuple) -> tuple:
+            if a[0] == 'g':
+                return ('g', a[1], a[2], a[3], [rewrite(i) for i in a[4]])
+            if a[0] == 'a':
+                return ('a', rng.choice(TOKEN_SPECS + TOKEN_SPECS + ['##any', 'urn:t', '!q:a']), a[2], a[3])
+            return a
+        m = rewrite(m)
+        if any(l[0] == 'a' and l[1] in TOKEN_SPECS for l in leaves(m)):
+            return m
+
+
+def open_content_model(rng) -> tuple:
+    """XSD 1.1: ('oc', mode, wildcard spec, model) — the model under an explicit xs:openContent"""
+    if rng.random() < 0.5:
+        m = small_random(rng, rng.choice([1, 2, 3]), ['a', 'b'], [(1, 1), (0, 1), (0, None), (1, 2), (2, 2)], any_p=0.2)
+    else:
+        m = random_model(rng, True, max_depth=2)
+    spec = rng.choice(['##any', '##other', 'urn:t', '##local', '!ns:urn:t', '!q:a', '!q:##defined', '!q:##definedSibling'])
+    return ('oc', rng.choice(['interleave', 'suffix']), spec, m)
 
 
 def shared_ref_model(rng, v11: bool) -> tuple:
@@ -357,7 +433,15 @@ class Introspector15:
         # happens with references to named groups, is two particles of the content model): this is the
         # tree the specification and the oracle read; `occ_obj[k]` = object id of occurrence k
         self.occ_obj: list[int] = []
+        # for S/O a wildcard with ##defined / ##definedSibling is the same wildcard with those names listed in
+        # notQName (the denotation of the tokens): global element names of the schema / names matched by the
+        # element particles of this content model
+        self.defined_names = sorted(cm.split_qname(n) for n in group.maps.elements if n.startswith('{' + TNS + '}'))
+        self.sib_names = sorted([TNS, n] for n in json_sibs(self.cjson))
+        self.has_nd = False
         self.sjson = self.renumber(self.cjson)
+        oc = getattr(getattr(group, 'parent', None), 'open_content', None)
+        self.open_content = None if oc is None else {'mode': oc.mode, 'w': wc_introspect_any(oc.any_element)}
         self.shared = len(set(self.occ_obj)) != len(self.occ_obj)
         self.type_ids = type_ids
         self.einfo = []
@@ -377,6 +461,7 @@ class Introspector15:
                         decls.append(cm.split_qname(n) + [self.tid(ge.type)])
                 decl_of[i] = decls
         self.types = [[k, decl_of[i]] for k, i in enumerate(self.occ_obj) if i in decl_of]
+        self.otypes = [[i, decl_of[i]] for i in sorted(decl_of)]      # the same table keyed by object id
 
     def renumber(self, j: dict) -> dict:
         k = len(self.occ_obj)
@@ -384,6 +469,12 @@ class Introspector15:
         out = dict(j, id=k)
         if j['t'] == 'g':
             out['items'] = [self.renumber(i) for i in j['items']]
+        elif j['t'] == 'a' and (j['w'].get('nd') or j['w'].get('nsib')):
+            w = dict(j['w'])
+            extra = (self.defined_names if w.get('nd') else []) + (self.sib_names if w.get('nsib') else [])
+            w['notQ'] = sorted([list(x) for x in {tuple(q) for q in w['notQ'] + extra}])
+            self.has_nd = self.has_nd or bool(w.get('nd'))
+            out['w'] = w
         return out
 
     def oid(self, obj: Any) -> int:
@@ -433,6 +524,10 @@ class Introspector15:
                     if n not in names:
                         names.append(n)
         walk(self.json)
+        if self.has_nd:
+            for n in self.defined_names:
+                if n not in names:
+                    names.append(n)
         for f in FRESH:
             if list(f) not in names:
                 names.append(list(f))
@@ -441,13 +536,29 @@ class Introspector15:
     def request(self, v11: bool, fuel: int) -> dict:
         defined = sorted(cm.split_qname(n) for n in self.root.maps.elements if n.startswith('{' + TNS + '}'))
         return {'v11': v11, 'n': len(self.objs), 'model': self.json, 'smodel': self.sjson, 'einfo': self.einfo,
-                'defined': defined, 'sigma': self.sigma(), 'types': self.types, 'fuel': fuel}
+                'defined': defined, 'sigma': self.sigma(), 'types': self.types, 'otypes': self.otypes, 'fuel': fuel}
 
 
-def ast_of_json(j: dict) -> tuple:
-    """generator-level reading of an introspected group, up to the leaf details"""
+def json_sibs(j: dict) -> set:
     if j['t'] == 'g':
-        return ('g', j['k'], j['lo'], j['hi'], [ast_of_json(i) for i in j['items']])
+        return set().union(*[json_sibs(i) for i in j['items']]) if j['items'] else set()
+    if j['t'] == 'e':
+        return {n[1] for n in j['names'] if n[0] == TNS and n[1] != 'q'}
+    return set()
+
+
+def wc_introspect_any(w: Any) -> Any:
+    from harness.props.c16 import introspect as wc_introspect
+    return wc_introspect(w)
+
+
+def ast_of_json(j: dict, top: bool = True) -> tuple:
+    """generator-level reading of an introspected group, up to the leaf details"""
+    global _SIBS
+    if top:
+        _SIBS = json_sibs(j)
+    if j['t'] == 'g':
+        return ('g', j['k'], j['lo'], j['hi'], [ast_of_json(i, False) for i in j['items']])
     if j['t'] == 'e':
         # the abstract member q is in `substitutes` in one XSD version only; a child named q is refused either way
         return ('e', [n[1] for n in j['names'] if n[1] != 'q'], j['lo'], j['hi'])
@@ -455,9 +566,11 @@ def ast_of_json(j: dict) -> tuple:
     return ('a', [s for s in UNIVERSE if wc_json_matches(w, s)], j['lo'], j['hi'])
 
 
-def skeleton(ast: tuple) -> tuple:
+def skeleton(ast: tuple, top: bool = True) -> tuple:
+    if top:
+        set_sibs(ast)
     if ast[0] == 'g':
-        return ('g', ast[1], ast[2], ast[3], [skeleton(i) for i in ast[4]])
+        return ('g', ast[1], ast[2], ast[3], [skeleton(i, False) for i in ast[4]])
     if ast[0] == 'a':
         return ('a', [s for s in UNIVERSE if wc_matches(ast[1], s)], ast[2], ast[3])
     if ast[0] == 'l':
@@ -477,6 +590,10 @@ def wc_json_matches(w: dict, sym: tuple[str, str]) -> bool:
         ok = ns not in ('', w['tns'])
     else:
         ok = ns in w['ns']
+    if w.get('nd') and ns == TNS and loc in ELEM_NAMES:
+        return False
+    if w.get('nsib') and ns == TNS and loc in _SIBS:
+        return False
     return ok and [ns, loc] not in w['notQ']
 
 
@@ -533,6 +650,7 @@ def glushkov_upa(ast: tuple, v11: bool, cap: int = 600) -> Optional[bool]:
     members, too many positions)."""
     lvs: list[tuple] = []
     g = _G(cap)
+    set_sibs(ast)
 
     def annotate(a: tuple) -> tuple:
         if a[0] != 'g':
